@@ -15,6 +15,16 @@ CHECKS = {
             "Generated commit/merge/delete histories and query trees; every query is evaluated through ten access paths on the real index and compared, in both directions, with a reference evaluator over the document model and with each other. Sampling of an unbounded space: small corpora (<=60 docs), depth<=4 trees.",
             "Trusts wv/refquery.py as the documented meaning; FuzzyTerm checked as an interval (variant of edit distance decided in C19); Regex = re.match.",
             "DESIGN.md section 2 C01"),
+    "C06": ("exploration",
+            "property-based testing (Hypothesis): differential between generated physical histories of one logical operation list, compared through a canonical logical dump",
+            "One generated document-level operation list (adds, parent/child groups, deletes, updates in epochs) is built through three generated physical histories "
+            "(commit partition, merge=False/default/optimize/custom policy, block limit, compression, compound/loose, plain/buffered writer) and through a reference "
+            "history (one commit per epoch + optimize). The canonical logical dumps (stored values, live postings with weights and positions, field lengths, vectors, "
+            "columns), probe query results and - without deletes - term statistics and scores must be equal; optimize must leave no deleted docs / removed-field terms; "
+            "groups must stay adjacent and NestedParent must agree with the model.",
+            "In-process writer front-ends only (multi-process writers: C18). BufferedWriter is used only on schemas without column fields and commits without groups "
+            "(recorded finding C18-buffered-columns; BufferedWriter has no group support).",
+            "DESIGN.md section 2 C06"),
     "C07": ("exploration",
             "model-based property testing (Hypothesis-generated operation histories vs a dictionary model, invariant checked after every transaction)",
             "Generated writer histories (add / update by one or two unique fields / delete by term, query, docnum / commit with every merge mode / cancel) are "
